@@ -583,7 +583,7 @@ theorem cferCount_terminates (hA : LawfulArith A) (hex : A.exact = false) (batch
     crash flag is up exactly `seats` candidates are elected and nobody is left hopeful -/
 theorem cfer_result (hA : LawfulArith A) (hex : A.exact = false) (batch : Bool) (s0 t : St α)
     (h0 : GStart A (cferQuota A s0) s0) (h : cferCount A batch s0 = some t) :
-    RecMon (snaps t.acts) ∧ Ext s0 t ∧ (t.crash = none → nEl t = t.seats ∧ nHop t = 0) := by
+    Mon t ∧ Ext s0 t ∧ (t.crash = none → nEl t = t.seats ∧ nHop t = 0) := by
   have hinit := CferInv.init A hA h0
   unfold cferCount at h
   have hX : Ext (cferInit A s0) t := loopN_ext (CferInv A) (fun _ => true) (cferBody A batch)
@@ -592,12 +592,12 @@ theorem cfer_result (hA : LawfulArith A) (hex : A.exact = false) (batch : Bool) 
   rcases loopN_result (CferInv A) (Done A) (fun _ => true) (cferBody A batch)
     (fun s hs _ hc => hs.step A hA hex batch hc) (fun s hs _ hc => (cferBody_spec A hA hex batch hs).2.1 hc)
     _ _ _ hinit h with ⟨hP, hstop⟩ | hQ
-  · refine ⟨hP.2.1.1, hX0.trans hX, ?_⟩
+  · refine ⟨hP.2.1, hX0.trans hX, ?_⟩
     intro hcr
     rcases hstop with hs | hs
     · rw [hcr] at hs; simp at hs
     · simp at hs
-  · exact ⟨hQ.1.2.1, hX0.trans hX, hQ.2⟩
+  · exact ⟨hQ.1.2, hX0.trans hX, hQ.2⟩
 
 theorem cfer_seats_filled (hA : LawfulArith A) (hex : A.exact = false) (batch : Bool) (s0 : St α)
     (h0 : GStart A (cferQuota A s0) s0) :
